@@ -175,6 +175,11 @@ def register(R: Registry):
 SWC_COLS = dict(id="int", type="int", x="real", y="real", z="real", r="real", pid="int")
 
 
+def _frame_uids(df):
+    """allocation identities of a frame and of its column arrays (the engine's entry set does not look inside frames)"""
+    return {df.uid} | {c.uid for c in df.cols.values()}
+
+
 def _first_root(E, df_old):
     """ghost: position of the first row whose pid is -1 (as a z3 term with axioms)."""
     pid = df_old.cols["pid"]
@@ -263,6 +268,93 @@ def register_normalizer(R):
                  ("other-roots-linked-to-first", marks_post("other-roots-linked")), ("every-original-edge-kept", marks_post("edges-kept")),
                  ("attributes-untouched", frame_other_cols({"pid"}))],
     )
+
+    # ------------------------------------------------------------------ the copying forms
+    # _copy_and_apply(fn, df, *args, **kwargs): fn is an UNKNOWN callable (it may rewrite the frame it is given in any way)
+    def caa_setup(S):
+        from pyvc.loops import havoc_value
+        from pyvc.values import snapshot
+
+        def fn_model(eng, args, kwargs):
+            eng.assumptions.add("callback-model(local to _copy_and_apply): fn may rewrite the contents of the frame it receives, nothing else")
+            eng.ghost.setdefault("fn-calls", []).append(dict(args=list(args), kwargs=dict(kwargs), at_call=snapshot(args[0]) if args else None))
+            if args:
+                havoc_value(eng, args[0])
+            return None
+
+        cols = dict(SWC_COLS)
+        cols["w"] = "real"  # an extra per-node column travels along
+        df = S.dframe(cols)
+        df.frozen = True
+        return dict(fn=S.callback("fn", fn_model), df=df, args=(S.int("a0"),), kwargs=PDict({"k": S.int("k0")}))
+
+    def caa_post(which):
+        def f(E, v, o):
+            calls = E.ghost.get("fn-calls", [])
+            if len(calls) != 1 or not calls[0]["args"]:
+                return False
+            c = calls[0]
+            got, d0 = c["args"][0], o["df"]
+            if which == "fn-applied-once-to-an-equal-copy-with-the-given-arguments":
+                if not hasattr(got, "cols") or got.uid in _frame_uids(d0) or list(c["at_call"].cols) != list(d0.cols):
+                    return False  # fn must get a COPY: an object allocated by this call
+                rest_ok = len(c["args"]) == 1 + len(o["args"]) and all(a is b for a, b in zip(c["args"][1:], v["args"])) and set(c["kwargs"]) == set(o["kwargs"].items) \
+                    and all(c["kwargs"][k_] is v["kwargs"].items[k_] for k_ in c["kwargs"])
+                same = [zint(c["at_call"].n) == zint(d0.n)] + [c["at_call"].cols[k_].arr == d0.cols[k_].arr for k_ in d0.cols]
+                return z3.And(z3.BoolVal(bool(rest_ok)), *same)
+            if which == "returns-the-frame-fn-worked-on":
+                return v["result"] is got
+            if which == "result-shares-no-storage-with-the-input":
+                return not (_frame_uids(got) & _frame_uids(d0))
+            raise KeyError(which)
+
+        return f
+
+    R.add(f"{NORM}:_copy_and_apply", prop="C18", setup=caa_setup,
+          ensures=[(nm, caa_post(nm)) for nm in ("fn-applied-once-to-an-equal-copy-with-the-given-arguments", "returns-the-frame-fn-worked-on",
+                                                 "result-shares-no-storage-with-the-input")],
+          notes="no `returns`: callers inline it, so the wrappers below see the in-place contract of the function they pass; the input frame is frozen")
+
+    def on_result(clause):
+        """a clause of the in-place form, read between the RESULT frame and the (untouched) input frame"""
+        def f(E, v, o):
+            r = v["result"]
+            if not hasattr(r, "cols"):
+                return False
+            return clause(E, {"df": r}, o)
+
+        return f
+
+    def fresh_result(E, v, o):
+        r = v["result"]
+        return hasattr(r, "cols") and r is not v["df"] and not (_frame_uids(r) & _frame_uids(o["df"]))
+
+    def frozen_frame(S, extra=True):
+        cols = dict(SWC_COLS)
+        if extra:
+            cols["w"] = "real"
+        df = S.dframe(cols)
+        df.frozen = True
+        return df
+
+    R.add(f"{NORM}:reset_index", prop="C18",
+          setup=lambda S: dict(df=frozen_frame(S), names=None),
+          requires=[has_root],
+          ensures=[("ids-rebased-on-first-root", on_result(reset_post("ids"))), ("edges-rebased", on_result(reset_post("edges"))),
+                   ("every-root-stays-root", on_result(reset_post("roots"))), ("attributes-untouched", on_result(frame_other_cols({"id", "pid"}))),
+                   ("result-is-a-fresh-frame", fresh_result)],
+          notes="input frame frozen: `input untouched` is the absence of a failed frame-write obligation")
+
+    R.add(f"{NORM}:mark_roots_as_somas", prop="C18",
+          variants={
+              "update_type=1": lambda S: dict(df=frozen_frame(S), update_type=1, names=None),
+              "update_type=False": lambda S: dict(df=frozen_frame(S), update_type=False, names=None),
+          },
+          requires=[has_root, "ids-are-not-the-marker :: forall(0, len_(df), lambda i: df['id'][i] != -1)"],
+          ensures=[("first-root-kept", on_result(marks_post("first-root-kept"))), ("single-root", on_result(marks_post("single-root"))),
+                   ("other-roots-linked-to-first", on_result(marks_post("other-roots-linked"))),
+                   ("every-original-edge-kept", on_result(marks_post("edges-kept"))),
+                   ("attributes-untouched", on_result(frame_other_cols({"pid"}))), ("result-is-a-fresh-frame", fresh_result)])
 
 
 _reg_dsu = register
@@ -687,7 +779,7 @@ def register_get_dsu(R):
             i = z3.Int("i18")
             Li = z3.Select(L, i)
             if which == "fresh-array-of-row-numbers":
-                return z3.And(r.uid not in E.entry_uids, r.nz() == T.n, z3.ForAll([i], z3.Implies(T.R(i), T.R(Li))))
+                return z3.And(r.uid not in E.entry_uids and r.uid not in _frame_uids(o["df"]), r.nz() == T.n, z3.ForAll([i], z3.Implies(T.R(i), T.R(Li))))
             if which == "labels-label-themselves":
                 return z3.ForAll([i], z3.Implies(T.R(i), z3.Select(L, Li) == Li))
             if which == "same-label-only-if-connected(label-lies-in-the-row's-component-for-every-labelling-constant-along-edges)":
@@ -781,6 +873,57 @@ def register_single_root(R):
           notes="deprecated alias: same contract as is_single_root")
 
 
+# ---------------------------------------------------------------------------------------------------------------
+# is_binary_tree(df, exclude_root): deprecated frame form of is_bifurcate (client of its contract)
+def register_binary_tree(R):
+    def setup(exclude_root):
+        def f(S):
+            df = S.dframe(SWC_COLS)
+            df.frozen = True
+            pids = df.cols["pid"]
+            nch = z3.Function("nch", z3.IntSort(), z3.IntSort(), z3.IntSort())  # the SAME ghost counter as in is_bifurcate's contract
+            k, i = z3.Ints("k_nch i_nch")
+            S.assume(z3.ForAll([k], nch(k, 0) == 0))
+            S.assume(z3.ForAll([k, i], z3.Implies(i >= 0, nch(k, i + 1) == nch(k, i) + z3.If(z3.Select(pids.arr, i) == k, 1, 0)), patterns=[nch(k, i + 1)]))
+            S.assume(z3.ForAll([k, i], z3.Implies(i >= 0, nch(k, i) >= 0), patterns=[nch(k, i)]))
+            prow = z3.Function("prow", z3.IntSort(), z3.IntSort())
+            return dict(df=df, exclude_root=exclude_root, names=None, __ghost__={"nch": nch, "prow": prow})
+
+        return f
+
+    def T(v):
+        df = v["df"]
+        return df.cols["id"], df.cols["pid"], zint(df.n)
+
+    def pre(which):
+        def f(E, v, o):
+            ids, pids, n = T(v)
+            a, b = z3.Int("a18"), z3.Int("b18")
+            if which == "ids-distinct":
+                return z3.ForAll([a, b], z3.Implies(z3.And(0 <= a, a < b, b < n), ids.get(a).z != ids.get(b).z))
+            if which == "ids-are-not-the-marker":
+                return z3.ForAll([a], z3.Implies(z3.And(0 <= a, a < n), ids.get(a).z != -1))
+            pr = E.spec_extra["prow"](a)
+            return z3.ForAll([a], z3.Implies(z3.And(0 <= a, a < n, pids.get(a).z != -1), z3.And(0 <= pr, pr < n, ids.get(pr).z == pids.get(a).z)))
+
+        return f
+
+    def post(E, v, o):
+        ids, pids, n = T(o)
+        nch = E.spec_extra["nch"]
+        a = z3.Int("a18")
+        ex = o["exclude_root"]
+        ok = z3.ForAll([a], z3.Implies(z3.And(0 <= a, a < n), z3.Or(z3.And(z3.BoolVal(bool(ex)), pids.get(a).z == -1), nch(ids.get(a).z, n) <= 2)))
+        return to_z3(v["result"], "bool") == ok
+
+    R.add(f"{CHK}:is_binary_tree", prop="C18",
+          variants={"exclude_root=True": setup(True), "exclude_root=False": setup(False)},
+          requires=[(nm, pre(nm)) for nm in ("ids-distinct", "ids-are-not-the-marker", "parents-exist")],
+          returns="bool",
+          ensures=[("true-iff-no-node-has-more-than-two-children", post)],
+          notes="deprecated frame form; the id / pid columns are handed to is_bifurcate, whose contract is used modularly")
+
+
 _reg_5 = register
 
 
@@ -788,3 +931,4 @@ def register(R):  # noqa: F811
     _reg_5(R)
     register_get_dsu(R)
     register_single_root(R)
+    register_binary_tree(R)
